@@ -9,7 +9,7 @@ def run(ctx):
     codec.world(ctx)
     nd = 3 if ctx.tier == 'quick' else 4
     for place, nm in ((0, 'header_90_91'), (1, 'body_95_96'), (2, 'trailer_93_89')):
-        ctx.add(Harness('C06_data_%s' % nm, VERIF + '/harness/C06_data.c', defines=defs + ['PLACE=%d' % place, 'NDATA=%d' % nd, 'VF_MAXCOPY=%d' % codec.FLD], unwind=14,
+        ctx.add(Harness('C06_data_%s' % nm, VERIF + '/harness/C06_data.c', defines=defs + codec.WORLD_DEFS + ['PLACE=%d' % place, 'NDATA=%d' % nd, 'VF_MAXCOPY=%d' % codec.FLD], unwind=14,
                         unwindset=codec.us_decode(14), flags=['-I', VERIF + '/shims'], object_bits=14, timeout=1200, functions=FUN,
                         stubs=codec.STUBS_DECODE + [codec.STUB_TOK + ' (never applied to the data token: asserted)', codec.STUB_NOGRP],
                         bounds='Logon message with the pair in the %s; data length n = 0..%d (each length one concrete-layout run), the n data bytes arbitrary (SOH, \'=\', NUL included); checksum verification off' % (nm.split('_')[0], nd),
